@@ -295,6 +295,87 @@ func runC16(r *core.Run) {
 			return core.Outcome{Class: fmt.Sprint("mutation-then-query=", nontrivial), Nontrivial: nontrivial, Evals: len(c.Ops)}
 		})
 
+	type memCase struct {
+		Starts []int  `json:"starts"`
+		Ends   []int  `json:"ends"`
+		Layout string `json:"layout"`
+	}
+	memLayouts := []string{"starts-with-spare-capacity", "both-with-spare-capacity", "one-buffer-starts-then-ends", "one-buffer-ends-then-starts", "one-buffer-with-a-gap", "starts-reused-with-[:0]-append"}
+	r.Bound("caller-memory", fmt.Sprintf("every list of 1..3 intervals over {0,1,2,3} x %d memory layouts of the two argument slices (spare capacity behind starts, behind both, both cut from one allocation in either order, with a gap, filled by append into a reused buffer)", len(memLayouts)))
+	core.Clause(r, "caller-memory", core.Opts{Rule: "where and how the caller allocated starts and ends plays no role: the index answers for the values passed, and the two lists still hold them afterwards (an append to an argument lands in the caller's memory: in the other list, or in whatever lies behind); non-trivial = at least 2 intervals"},
+		func(emit func(memCase) bool) {
+			listsOver([]int{0, 1, 2, 3}, 3, func(st, en []int) bool {
+				if len(st) == 0 {
+					return true
+				}
+				for _, l := range memLayouts {
+					if !emit(memCase{slices.Clone(st), slices.Clone(en), l}) {
+						return false
+					}
+				}
+				return true
+			})
+		},
+		func(c memCase) core.Outcome {
+			n := len(c.Starts)
+			var starts, ends []int
+			switch c.Layout {
+			case "starts-with-spare-capacity":
+				buf := make([]int, 3*n+2)
+				for i := range buf {
+					buf[i] = -77
+				}
+				starts = buf[:n]
+				copy(starts, c.Starts)
+				ends = slices.Clone(c.Ends)
+			case "both-with-spare-capacity":
+				b1, b2 := make([]int, 3*n+2), make([]int, 3*n+2)
+				starts, ends = b1[:n], b2[:n]
+				copy(starts, c.Starts)
+				copy(ends, c.Ends)
+			case "one-buffer-starts-then-ends":
+				buf := make([]int, 2*n, 4*n+2)
+				starts, ends = buf[:n], buf[n:2*n]
+				copy(starts, c.Starts)
+				copy(ends, c.Ends)
+			case "one-buffer-ends-then-starts":
+				buf := make([]int, 2*n, 4*n+2)
+				ends, starts = buf[:n], buf[n:2*n]
+				copy(starts, c.Starts)
+				copy(ends, c.Ends)
+			case "one-buffer-with-a-gap":
+				buf := make([]int, 2*n+1, 4*n+2)
+				buf[n] = -77
+				starts, ends = buf[:n], buf[n+1:2*n+1]
+				copy(starts, c.Starts)
+				copy(ends, c.Ends)
+			default: // a reused buffer refilled by append
+				buf := make([]int, 0, 4*n+2)
+				buf = append(buf, 9, 9, 9, 9, 9, 9, 9)
+				starts = buf[:0]
+				for _, v := range c.Starts {
+					starts = append(starts, v)
+				}
+				ends = slices.Clone(c.Ends)
+			}
+			var fail string
+			p := catch(func() {
+				idx := regions.NewIndex(starts, ends)
+				if !slices.Equal(starts, c.Starts) || !slices.Equal(ends, c.Ends) {
+					fail = fmt.Sprintf("NewIndex changed its arguments: starts %v -> %v, ends %v -> %v", c.Starts, starts, c.Ends, ends)
+					return
+				}
+				fail = checkIndexAnswers(idx, c.Starts, c.Ends, "")
+			})
+			if p != "" {
+				return core.Failf("layout %s, starts %v ends %v: panic: %s", c.Layout, c.Starts, c.Ends, p)
+			}
+			if fail != "" {
+				return core.Failf("layout %s: %s", c.Layout, fail)
+			}
+			return core.Outcome{Class: c.Layout, Nontrivial: n >= 2, Evals: 2}
+		})
+
 	type qCase struct {
 		Starts  []int `json:"starts"`
 		Ends    []int `json:"ends"`
